@@ -13,7 +13,9 @@ object, redirects across host names, look-alike host names with `_` / `%`, HOME 
 Further dimensions of every history: LOOK-ALIKE certificates (another DER around the issuer name + serial number, or around the key,
 of a certificate of the pool); `["age", days]` = time passes without anybody touching the store (all its timestamps move into the
 past; a year boundary is in the value set); `["newclient", fault]` = the application builds one more GeminiClient on the store
-while the file is locked by another connection / cannot be opened / cannot be written (sim/client_storefault.py).
+while the file is locked by another connection / cannot be opened / cannot be written (sim/client_storefault.py); peers that SPEAK
+FIRST (5th element of a hop, FIRST_MODES): a complete non-2x response sent without reading a request - in the TCP segment of a TLS 1.2
+peer's Finished, or right after a TLS 1.3 handshake - so that the client holds a response before its pin check has run.
 """
 from __future__ import annotations
 
@@ -59,6 +61,9 @@ ASSUMPTIONS = [
     "a store that cannot be used while a client is being BUILT (EXCLUSIVE lock held by a second connection with a 50 ms busy timeout instead of SQLite's 5 s, "
     "sqlite3.connect raising 'unable to open database file', writes/commits failing) is injected through a shim for the sqlite3 module inside nauyaca.security.tofu; "
     "a constructor that raises leaves the application with the client object it had; one that returns hands over the client used from then on",
+    "a peer that speaks first sends a complete header-only response (statuses 10, 31, 51, 60) without reading a request; the property lets nothing depend on "
+    "who speaks when, so such a call is judged like any other (result, fingerprints of the error, pins); only whether the peer ALSO received a request is "
+    "left out of the model comparison for these calls",
     "look-alike certificates are made by the harness with the `cryptography` package: same subject/issuer/serial number/validity/extensions around another key "
     "(self-signed, or issued by the harness CA), and a re-issue with the same key under another serial number; they differ from the original in sha256(DER) only as far as the pin is concerned",
 ]
@@ -106,6 +111,29 @@ def compact(ops) -> str:
     import json
 
     return json.dumps(ops, separators=(",", ":")) if ops else "none"
+
+
+def pins(d) -> list:
+    """the items of a pin map {(host, port): fingerprint} in a stable order.  A key component is an index (int) or, for a row whose
+    host name / port nobody named, the string "?<what the store holds>": never compare the two kinds with each other"""
+    return sorted(d.items(), key=lambda kv: tuple((0, x, "") if isinstance(x, int) else (1, 0, str(x)) for x in kv[0]))
+
+
+def strangers(d) -> list:
+    """rows of the store whose host name or port is none of the names / ports of the history (hid / pid gave "?…")"""
+    return [kv for kv in pins(d) if any(not isinstance(x, int) for x in kv[0])]
+
+
+# a peer that SPEAKS FIRST (6th element of a get / upload op, 5th of a hop): it sends a complete non-2x response without having
+# read a request.  "fin12" = TLS 1.2 peer, the response leaves in the same TCP segment as its Finished (the client's event loop sees
+# the end of the handshake and the response in ONE read, before the calling task runs again); "early" = the default (TLS 1.3) peer
+# sends as soon as its handshake is over.  The property is indifferent to who speaks when: the pin check decides.
+FIRST_MODES = ["fin12", "early"]
+FIRST_REPLIES = [b"31 gemini://impostor.example/\r\n", b"51 nothing here\r\n", b"60 certificate wanted\r\n", b"10 your password\r\n"]
+
+
+def hop_first(hop) -> str:
+    return hop[4] if len(hop) > 4 and hop[4] else ""
 
 
 def cert_desc(ci: int) -> str:
@@ -231,16 +259,30 @@ class Runner:
                    final: bytes = b"20 text/gemini\r\nhello\n", steps_for=None, mime: str = "text/gemini", path: str = "/hop0", extra_scripts=()):
         """one client call; hops = [[h, p, cert, patch], …] (a redirect chain when longer than 1).
         `steps_for(i, reply)` gives the byte-level script of hop i (default: read the request line, reply, close).
-        A loader patch is process-wide for the duration of the call, so it is honoured on single-hop calls only.
+        A hop may carry a 5th element (FIRST_MODES): that peer speaks first - it sends its (non-2x) response without reading a request.
+    A loader patch is process-wide for the duration of the call, so it is honoured on single-hop calls only.
         `extra_scripts` = [(port index, certificate index, steps), …]: scripts queued BEHIND those of the hops, for connections the
         call is not expected to make (what a peer would show if the client connected once more).
         Returns (result, url)."""
         T = self.T
-        for i, (h, p, cert, _patch) in enumerate(hops):
+        for i, hop in enumerate(hops):
+            h, p, cert = hop[:3]
+            first = hop_first(hop)
             if i + 1 < len(hops):
                 reply = f"30 {self.url(hops[i + 1][0], hops[i + 1][1], f'/hop{i + 1}')}\r\n".encode()
             else:
                 reply = final
+            if first:
+                # a peer that speaks first: a complete non-2x response (a header is all of it) without having read a request
+                if i + 1 == len(hops):
+                    # (redirects are followed on a chain: its last hop does not redirect once more)
+                    pool = FIRST_REPLIES if len(hops) == 1 else [r for r in FIRST_REPLIES if r[:1] != b"3"]
+                    reply = pool[(h + p + cert) % len(pool)]
+                if first == "fin12" and cert < len(self.T.ALL_CERTS):     # (the "@12" contexts exist for the certificates of the CertStore)
+                    self.peers[p].push(CERTS[cert] + "@12", [], with_finished=reply)     # rides on the TLS 1.2 Finished
+                else:
+                    self.peers[p].push(CERTS[cert], [["send", reply], ["read_eof", 2.0], ["close"]])
+                continue
             # after a body-less reply the client closes first: wait for that (an abrupt close can turn the reply into a reset)
             tail = [["close"]] if reply[:1] == b"2" else [["read_eof", 2.0], ["close"]]
             steps = steps_for(i, reply) if steps_for else [["read_request", 3.0], ["send", reply]] + tail
@@ -460,6 +502,9 @@ class Histories(Family):
         patch = ""
         if allow_patch and rng.random() < 0.08:
             patch = rng.choice(["raise", "none"])
+        if not patch and rng.random() < 0.07:
+            # this peer speaks first (TLS 1.2: together with its Finished; TLS 1.3: as soon as its handshake is over)
+            return [h, p, cert, patch, rng.choice(FIRST_MODES) if cert < 6 else "early"]
         return [h, p, cert, patch]
 
     def rand_op(self, rng, keys):
@@ -516,6 +561,18 @@ class Histories(Family):
         for days in AGES:
             b.append({"tofu": True, "fresh": True, "ops": [["get", 1, 0, 0, ""], ["upload", 0, 1, 1, ""], ["age", days], ["get", 1, 0, 1, ""], ["upload", 0, 1, 1, ""], ["get", 1, 0, 0, ""]]})
             b.append({"tofu": True, "fresh": False, "ops": [["get", 1, 0, 0, ""], ["age", days], ["revoke", 2, 1], ["get", 1, 0, 1, ""], ["get", 1, 0, 0, ""]]})
+        # a peer that SPEAKS FIRST: its complete (non-2x) response reaches the client with / right after the end of the handshake, no
+        # request read.  Pinned host showing another (also an unreadable) certificate, the same one, an unpinned host; then the pin again
+        for mode in FIRST_MODES:
+            for kind in ("get", "upload"):
+                for c1, c2 in ((0, 1), (1, 0), (0, 2), (4, 0), (1, 3), (0, 0), (1, 1)):
+                    b.append({"tofu": True, "fresh": False, "ops": [["get", 1, 0, c1, ""], [kind, 1, 0, c2, "", mode], ["get", 1, 0, c1, ""], ["get", 1, 0, c2, ""]]})
+                b.append({"tofu": True, "fresh": True, "ops": [[kind, 2, 1, 0, "", mode], ["get", 2, 1, 0, ""], ["upload", 2, 1, 1, "", mode], [kind, 2, 1, 3, "", mode]]})
+            # … as a hop of a redirect chain (the one that redirects / the last one), the target pinned to another certificate
+            b.append({"tofu": True, "fresh": False, "ops": [["trust", 0, 1, 1], ["chain", [[1, 0, 0, ""], [0, 1, 0, "", mode]]], ["get", 0, 1, 1, ""]]})
+            b.append({"tofu": True, "fresh": False, "ops": [["trust", 1, 0, 1], ["chain", [[1, 0, 0, "", mode], [0, 1, 0, ""]]], ["get", 1, 0, 1, ""]]})
+            b.append({"tofu": True, "fresh": False, "ops": [["chain", [[1, 0, 0, "", mode], [0, 1, 2, "", mode]]], ["get", 1, 0, 0, "", mode], ["get", 0, 1, 0, "", mode]]})
+            b.append({"tofu": False, "fresh": False, "ops": [["get", 1, 0, 0, "", mode], ["upload", 1, 0, 1, "", mode]]})
         # overlapping first connections to one unpinned host:port, every pair of readable certificates
         for c1 in READABLE:
             for c2 in READABLE:
@@ -584,12 +641,16 @@ class Histories(Family):
                 elif k in ("get", "upload", "chain"):
                     if case["fresh"]:
                         client = mk()
-                    hops = [op[1:5]] if k != "chain" else op[1]
+                    hops = [op[1:6]] if k != "chain" else op[1]
+                    if any(hop_first(hp) for hp in hops):
+                        st["first"] = True       # a peer spoke first: whether it ALSO got a request is not part of the comparison
                     res, _ = await R.call(client, "upload" if k == "upload" else "get", hops)
                     logs = R.take_logs()
                     st["result"] = res[:1] if res[0] == "ok" else res
                     st["conns"] = [len(e["rx"]) > 0 for e in logs]
                     st["detail"] = {"status": res[1] if res[0] == "ok" else None, "certs": [e["cert"] for e in logs], "hs": [e["hs"] for e in logs]}
+                    if st.get("first"):
+                        st["detail"]["peer_errors"] = [e["err"] for e in logs]
                 else:
                     # `own`: the store operation is made on the client's own TOFUDatabase object (an application that
                     # fetches and manages pins with one client); otherwise by a separate object on the same file (the CLI)
@@ -727,7 +788,10 @@ class Histories(Family):
                 # two overlapping calls: any serialisation is a legal outcome
                 if "par" not in o or not any(a["par"] == o["par"] and a["rows"] == o["rows"] for a in e["alts"]):
                     return False
-            elif e["rows"] != o["rows"] or e["result"] != o["result"] or e["conns"] != o["conns"]:
+            elif e["rows"] != o["rows"] or e["result"] != o["result"]:
+                return False
+            elif (len(e["conns"]) != len(o["conns"])) if o.get("first") else (e["conns"] != o["conns"]):
+                # (a peer that speaks first does not wait for the request: only the number of connections is compared)
                 return False
         return True
 
@@ -784,7 +848,7 @@ class Histories(Family):
                     return ("other-key-influenced", f"{where}: pins of {bad} changed by calls that did not name them")
                 cur = after
             elif k in ("get", "upload", "chain"):
-                hops = [op[1:5]] if k != "chain" else op[1]
+                hops = [op[1:6]] if k != "chain" else op[1]
                 res, conns = st["result"], st["conns"]
                 if not case["tofu"]:
                     if after != cur:
@@ -793,7 +857,8 @@ class Histories(Family):
                     continue
                 exp = dict(cur)       # the store as the property lets it evolve along the hops that were connected to
                 failing = False
-                for j, (h, p, cert, patch) in enumerate(hops[:len(conns)]):
+                for j, hop in enumerate(hops[:len(conns)]):
+                    h, p, cert, patch = hop[:4]
                     key = (h, p)
                     last = j == len(conns) - 1
                     pres = _presented(cert, patch if len(hops) == 1 else "")
@@ -805,7 +870,7 @@ class Histories(Family):
                     pin = exp.get(key)
                     if pin is None:
                         if last and res[0] == "changed":
-                            return ("unpinned-reported-changed", f"{where}: hop {j} to {key} ({HOSTS[h]!r}), which has no pin (pins: {sorted(exp.items())}), "
+                            return ("unpinned-reported-changed", f"{where}: hop {j} to {key} ({HOSTS[h]!r}), which has no pin (pins: {pins(exp)}), "
                                                                  f"failed with a certificate-changed error {res}: a pin of another host:port was applied to it")
                         exp[key] = pres            # a first connection pins what was presented
                     elif pin != pres and sem(pin) == pres:
@@ -816,7 +881,7 @@ class Histories(Family):
                             break
                     elif pin != pres:
                         if not last or res[0] == "ok":
-                            return ("accepted-with-different-cert", f"{where}: hop {j} to {key} ({HOSTS[h]!r}) pinned to fingerprint {pin} presented {pres} = certificate {cert_desc(cert)} and was accepted (result {res}, {len(conns)} connections); steps before: {compact(case['ops'][:i])}; client certificate: {bool(case.get('ident'))}, store operations on the client's own store object: {bool(case.get('own'))}, a new client object per call: {bool(case.get('fresh'))}")
+                            return ("accepted-with-different-cert", f"{where}: hop {j} to {key} ({HOSTS[h]!r}) pinned to fingerprint {pin} presented {pres} = certificate {cert_desc(cert)}{' (this peer SPOKE FIRST: ' + hop_first(hop) + ', its response came with the end of the handshake, no request read)' if hop_first(hop) else ''} and was accepted (result {res}, {len(conns)} connections); steps before: {compact(case['ops'][:i])}; client certificate: {bool(case.get('ident'))}, store operations on the client's own store object: {bool(case.get('own'))}, a new client object per call: {bool(case.get('fresh'))}")
                         if res[0] != "changed":
                             return ("changed-not-reported", f"{where}: hop {j} pinned {pin}, presented {pres}: result {res} is not a certificate-changed error")
                         if res[1:] != [pin, pres, h, p]:
@@ -825,14 +890,16 @@ class Histories(Family):
                         break
                 if failing:
                     if after != exp:
-                        return ("pins-changed-on-failure", f"{where}: store after the refused call is {sorted(after.items())}, the property allows only {sorted(exp.items())}")
+                        return ("pins-changed-on-failure", f"{where}: store after the refused call is {pins(after)}, the property allows only {pins(exp)}")
                 elif res[0] == "ok" and len(conns) == len(hops) and after != exp:
                     bad = [kk for kk in set(after) | set(exp) if after.get(kk) != exp.get(kk)]
                     touched = set(op_keys(op))
                     if any(kk not in touched for kk in bad):
-                        return ("other-key-influenced", f"{where}: pins of {[kk for kk in bad if kk not in touched]} changed by a call that did not name them")
+                        return ("other-key-influenced", f"{where}: pins of {[kk for kk in bad if kk not in touched]} changed by a call that did not name them "
+                                f"(it named {sorted({HOSTS[kk[0]] for kk in touched})}; a key ('?x', port) is a row stored under the host name 'x', which no step of the "
+                                f"history named: pins of different host names share it); pins before {pins(cur)}, after {pins(after)}; steps before: {compact(case['ops'][:i])}")
                     shown = ", ".join(f"{CERTS[hp[2]]!r} (fingerprint {CERT_FP[hp[2]]})" for hp in hops)
-                    return ("first-use-not-pinned", f"{where}: the accepted call was shown {shown}; store afterwards {sorted(after.items())}, the property requires {sorted(exp.items())}; "
+                    return ("first-use-not-pinned", f"{where}: the accepted call was shown {shown}; store afterwards {pins(after)}, the property requires {pins(exp)}; "
                                                     f"steps before: {compact(case['ops'][:i])}; a new client object per call: {bool(case.get('fresh'))}; certificates: {'; '.join(cert_desc(hp[2]) for hp in hops)}")
                 cur = after
             else:
@@ -843,7 +910,7 @@ class Histories(Family):
                     if after != cur:
                         what = (f"{op[1]} days passed without anybody touching the store" if k == "age" else
                                 f"one more GeminiClient was built on the store (store file: {op[1] or 'in order'}; constructor raised: {st.get('raised')})")
-                        return ("pins-changed-without-operation", f"{where}: {what}; pins before {sorted(cur.items())}, after {sorted(after.items())}; steps before: {compact(case['ops'][:i])}")
+                        return ("pins-changed-without-operation", f"{where}: {what}; pins before {pins(cur)}, after {pins(after)}; steps before: {compact(case['ops'][:i])}")
                     cur = after
                     continue
                 if k in ("trust", "revoke"):
@@ -859,8 +926,8 @@ class Histories(Family):
                 if k == "import_bad" and st.get("raised") and after != cur:
                     # an import that FAILED is not a trust-store operation of the history: whoever was pinned before it still is,
                     # and the connections that follow are judged against those pins
-                    return ("pins-changed-by-failed-import", f"{where}: the import raised {st['raised']} yet the pins changed from {sorted(cur.items())} to "
-                                                             f"{sorted(after.items())}: hosts pinned before the failed import are no longer checked against their pin; "
+                    return ("pins-changed-by-failed-import", f"{where}: the import raised {st['raised']} yet the pins changed from {pins(cur)} to "
+                                                             f"{pins(after)}: hosts pinned before the failed import are no longer checked against their pin; "
                                                              f"steps before: {compact(case['ops'][:i])}")
                 cur = after
         return None
@@ -871,7 +938,7 @@ class Histories(Family):
             if "par" in st:
                 kinds.add("par:" + "+".join(sorted(e[1][0] for e in st["par"])))
             elif st["result"] is not None:
-                kinds.add(f"{op[0]}:{st['result'][0]}")
+                kinds.add(f"{op[0]}:{st['result'][0]}" + ("(peer-first)" if st.get("first") else ""))
             elif op[0] == "import":
                 kinds.add(f"import-{op[1]}-{op[2]}")
             elif op[0] == "age":
@@ -932,6 +999,8 @@ class Configured(Histories):
         hop = Histories.rand_hop(self, rng, keys, allow_patch)
         if rng.random() < 0.1:
             hop[2] = rng.choice([i for pr in TWIN_PAIRS for i in pr])      # also the CA-issued pair
+            if hop_first(hop):
+                hop[4] = "early"
         return hop
 
     def rand_fetch(self, rng, keys):
